@@ -129,7 +129,7 @@ def run(ctx, stream, ncases, prefix="e2e", shards=1):
                     n_harness += 1
                     harness_lines.append(line[:1500])
                     if _is_corpus(line):
-                        corpus_harness.append(line[:1500])
+                        corpus_harness.append(line)
                 else:
                     st["agree"] = False
                 _judge(ctx, stream, line, prefix)
@@ -138,6 +138,22 @@ def run(ctx, stream, ncases, prefix="e2e", shards=1):
         st["ops"] = int(total.get("steps", 0))
     ctx.streams["e2e/" + stream] = st
     ctx.log("stream e2e/%s: %d cases, %d steps" % (stream, st["cases"], st["ops"]))
+    # a corpus case that ended in a harness clause is played once more on its own (an overloaded machine is not a
+    # fact about istio); only if it does so again it counts
+    still = []
+    for k, line in enumerate(corpus_harness):
+        p = os.path.join(ctx.work, "e2e.%s.corpus-retry.%d.json" % (stream, k))
+        with open(p, "w") as f:
+            f.write(line + "\n")
+        rc, log = ctx.harness("replay", stream, p, pkg="e2e", timeout=900)
+        verdict = [l for l in log.splitlines() if l.startswith("OK") or l.startswith("FAIL")]
+        ctx.count("e2e.%s.corpus-case-repeated" % stream)
+        if rc != 0 or not verdict or (verdict[-1].startswith("FAIL") and _clause(verdict[-1]).startswith("harness-")):
+            still.append(line[:1500])
+        elif verdict[-1].startswith("FAIL"):
+            _judge(ctx, stream, verdict[-1], prefix)
+    n_harness -= len(corpus_harness) - len(still)
+    corpus_harness = still
     # a run the harness could not judge is not a pass
     why = None
     if corpus_harness:
@@ -151,7 +167,7 @@ def run(ctx, stream, ncases, prefix="e2e", shards=1):
     if why:
         st["agree"] = False
         ctx.tie_broken("e2e-harness:%s" % stream,
-                       "stream e2e/%s could not be judged: %s\n%s" % (stream, why, "\n".join((corpus_harness or harness_lines)[:4])))
+                       "stream e2e/%s could not be judged: %s\n%s" % (stream, why, "\n".join(l[:1500] for l in (corpus_harness or harness_lines)[:4])))
 
 
 def is_e2e_replay(rep):
